@@ -129,29 +129,68 @@ def run(ctx):
         oks = rules.agg_sites(th, r"^core::result::Result$", "Ok")
         ctx.check("excl:Threshold::new:other-ok", not oks, "Threshold::new has no other Ok construction", rules.where(th), fn=th)
 
-    # 3c. Delegates::new: push guarded by !contains and len < 255; non-empty
+    # 3c. Delegates::new: distinct, at most 255, non-empty — recognised by mechanism, not by shape
     dn = db.one(r"^radicle::identity::doc::Delegates::new$")
-    cl = db.find(r"^radicle::identity::doc::Delegates::new::\{closure#\d+\}$")
-    if dn is None or not cl:
-        ctx.violated("anchor:Delegates::new", "Delegates::new or its fold closure not found (anchor missing)")
+    if dn is None:
+        ctx.violated("anchor:Delegates::new", "Delegates::new not found (anchor missing)")
     else:
+        fam = [dn] + db.find(r"^radicle::identity::doc::Delegates::new::\{closure#\d+\}")
+
+        def ltmax(f):
+            if f[0] != "cmp":
+                return False
+            lenl = cfg.callee_is(peel(f[2]), re.compile(r"::len$"))
+            lenr = cfg.callee_is(peel(f[3]), re.compile(r"::len$"))
+            return (f[1] == "Lt" and lenl and const_is(f[3], ("255",))) or (f[1] == "Le" and lenl and const_is(f[3], ("254", "255"))) or \
+                (f[1] == "Gt" and lenr and const_is(f[2], ("255",))) or (f[1] == "Ge" and lenr and const_is(f[2], ("255",)))
+
+        def lemax(f):
+            if f[0] != "cmp":
+                return False
+            lenl = cfg.callee_is(peel(f[2]), re.compile(r"::len$"))
+            lenr = cfg.callee_is(peel(f[3]), re.compile(r"::len$"))
+            return (f[1] == "Le" and lenl and const_is(f[3], ("255",))) or (f[1] == "Lt" and lenl and const_is(f[3], ("256",))) or \
+                (f[1] == "Ge" and lenr and const_is(f[2], ("255",))) or (f[1] == "Gt" and lenr and const_is(f[2], ("256",)))
+        distinct = None      # (True/False, how)
+        bounded = None
         npush = 0
-        for c in cl:
+        for c in fam:
             pushes = rules.call_blocks(c, r"^alloc::vec::Vec::push$")
             npush += len(pushes)
-            if not pushes:
-                continue
-
-            def ltmax(f):
-                return f[0] == "cmp" and f[1] == "Lt" and const_is(f[3], ("255",)) and \
-                    cfg.callee_is(peel(f[2]), re.compile(r"^alloc::vec::Vec::len$"))
-            ok, allow, bad = rules.dom_check(db, c, pushes, ltmax)
-            ctx.check("dom:Delegates::new:len<255", bool(ok and allow), "a delegate is pushed only while len < MAX_DELEGATES (255)",
-                      rules.where(c, pushes[0]), detail={"path": list(bad.values())[:1]}, fn=c)
-            ok, allow, bad = rules.dom_check(db, c, pushes, rules.is_bool(r"^core::slice::contains$|::contains$", False))
-            ctx.check("dom:Delegates::new:distinct", bool(ok and allow), "a delegate is pushed only if not already contained",
-                      rules.where(c, pushes[0]), detail={"path": list(bad.values())[:1]}, fn=c)
-        ctx.floor("Delegates::new:push", npush, 1, "push sites in the Delegates::new fold closure")
+            if pushes:
+                ok, allow, bad = rules.dom_check(db, c, pushes, rules.is_bool(r"^core::slice::contains$|::contains$", False))
+                distinct = (bool(ok and allow), "a delegate is pushed only if not already contained")
+                ok, allow, bad = rules.dom_check(db, c, pushes, ltmax)
+                bounded = (bool(ok and allow), "a delegate is pushed only while len < MAX_DELEGATES (255)")
+            for bb, t, c_ in db.calls(c):
+                n_ = c_.get("n") or ""
+                dn_ = c_.get("dn") or ""
+                if dn_.endswith("Iterator::collect") or dn_.endswith("FromIterator::from_iter"):
+                    tgt = c["locals"][t[3][0]][0]
+                    if re.search(r"BTreeSet<|HashSet<|IndexSet<", tgt) and distinct is None:
+                        distinct = (True, "delegates are collected into a set (%s)" % cfg.short(tgt.split("<")[0]))
+                if re.search(r"Vec::dedup(_by|_by_key)?$", n_):
+                    sorts = [b2 for b2, t2, c2 in db.calls(c) if re.search(r"::sort(_unstable)?(_by|_by_key)?$", c2.get("n") or "")]
+                    gd = graph(c)
+                    if sorts and any(gd.dominates(s_, bb) for s_ in sorts):
+                        if distinct is None:
+                            distinct = (True, "sorted, then adjacent duplicates removed")
+                    else:
+                        distinct = (False, "Vec::dedup only removes *adjacent* duplicates and the list is not sorted first: [A, B, A] keeps A twice")
+        ctor = [bb for bb, kind, of in rules.ctor_fn_uses(dn, r"doc::Delegates$")] + [bb for bb, j, k, ops in rules.agg_sites(dn, r"doc::Delegates$")]
+        if bounded is None or not bounded[0]:
+            ok, allow, bad = rules.dom_check(db, dn, ctor, lemax)
+            if ok and allow and ctor:
+                bounded = (True, "Delegates is built only when len <= MAX_DELEGATES (255)")
+        if distinct is None:
+            ctx.ob("dom:Delegates::new:distinct", "inconclusive", "no recognised mechanism makes the delegates distinct (push behind !contains, set, sort+dedup)",
+                   rules.where(dn), fn=dn)
+        else:
+            ctx.check("dom:Delegates::new:distinct", distinct[0], "delegates are distinct: %s" % distinct[1], rules.where(dn), fn=dn)
+        if bounded is None:
+            ctx.ob("dom:Delegates::new:len<255", "inconclusive", "no recognised bound on the number of delegates", rules.where(dn), fn=dn)
+        else:
+            ctx.check("dom:Delegates::new:len<255", bounded[0], bounded[1], rules.where(dn), fn=dn)
         okn = False
         for bb, kind, of in rules.ctor_fn_uses(dn, r"doc::Delegates$"):
             t = dn["blocks"][bb]["t"]
